@@ -113,6 +113,26 @@ def real_wigner(transition, node_id) -> tuple[str, str]:
     return req, rep
 
 
+def real_chain(transition, state_id) -> tuple[str, list[str]]:
+    """(request, canonical reply) for the axis-angle alignment sum of one final state."""
+    from sympy.physics.quantum.spin import WignerD
+
+    from ampform.helicity.align.axisangle import formulate_rotation_chain
+    from ampform.helicity.naming import get_helicity_suffix
+
+    top = transition.topology
+    two = lambda x: int(round(2 * float(x)))  # noqa: E731
+    sfx = get_helicity_suffix(top, state_id)
+    req = f"chain {state_id} {two(transition.states[state_id].particle.spin)} {sfx}"
+    ps = formulate_rotation_chain(transition, state_id)
+    out = []
+    for d in ps.expression.atoms(WignerD):
+        j, m, mp, al, be, ga = d.args
+        nm = lambda x: str(x).replace(" ", "")  # noqa: E731
+        out.append(f"D {two(j)} m={nm(m)} mp={nm(mp)} alpha={nm(al)} beta={nm(be)} gamma={nm(ga)}")
+    return req, [*sorted(out), "end"]
+
+
 # ----------------------------------------------------------------------------- inputs
 
 
@@ -131,7 +151,7 @@ def run(chk: common.Check, rng, tier: str, reactions: dict) -> dict:
     from tools.search.C04_oracle import topology_facts  # independent classifier (python)
 
     lines, expect, labels = [], [], []
-    stats = {"topologies": 0, "wigner_calls": 0, "by_final_states": {}, "relabelled": 0,
+    stats = {"topologies": 0, "wigner_calls": 0, "alignment_chains": 0, "by_final_states": {}, "relabelled": 0,
              "with_decaying_opposite_child": 0, "both_children_decay": 0}
 
     def add_topology(top, label):
@@ -172,6 +192,15 @@ def run(chk: common.Check, rng, tier: str, reactions: dict) -> dict:
             trs = [t for t in reaction.transitions if t.topology == top]
             if tier == "quick":
                 trs = trs[:: max(1, len(trs) // 6)]
+            # axis-angle alignment wiring: which angle symbols each Wigner-D of the rotation chain uses
+            first = next(t for t in reaction.transitions if t.topology == top)
+            for sid in sorted(top.outgoing_edge_ids):
+                req, rep = real_chain(first, sid)
+                lines.append(req)
+                expect.append(rep)
+                labels.append(f"{name}#{k} {req}")
+                stats["alignment_chains"] += 1
+                chk.count(("chain", name, k, req))
             for tr in trs:
                 for node in sorted(top.nodes):
                     req, rep = real_wigner(tr, node)
@@ -204,7 +233,7 @@ def run(chk: common.Check, rng, tier: str, reactions: dict) -> dict:
     mismatches = 0
     for line, exp, lab in zip(lines, expect, labels):
         got = out[pos: pos + len(exp)] if line != "angles" else None
-        if line == "angles":
+        if line == "angles" or line.startswith("chain "):
             try:
                 end = out.index("end", pos)
             except ValueError:
